@@ -24,7 +24,10 @@ def fresh_pool():
     from spyne import Integer, Unicode, ComplexModel
     A = type('A', (ComplexModel,), {'__namespace__': 'tns', '_type_info': [('a', Integer), ('s', Unicode)]})
     B = type('B', (A,), {'__namespace__': 'tns', '_type_info': [('b', Integer)]})
-    return [None, Integer, Unicode, A, B]       # 1-based
+    Mx1 = type('Mx1', (ComplexModel,), {'__namespace__': 'tns', '__mixin__': True, '_type_info': [('m1', Integer), ('m2', Unicode)]})
+    Mx2 = type('Mx2', (ComplexModel,), {'__namespace__': 'tns', '__mixin__': True, '_type_info': [('n1', Integer)]})
+    D = type('D', (Mx1, Mx2), {'__namespace__': 'tns', '_type_info': [('d', Integer)]})
+    return [None, Integer, Unicode, A, B, D]       # 1-based
 
 
 def attrs_of(c):
@@ -212,6 +215,8 @@ def pick_op(rnd, pool):
         if k == 'ChildAttrs':
             i = rnd.choice(cls_ids)
             fti = pool[i].get_flat_type_info(pool[i])
+            if 'y' not in allnames and rnd.random() < 0.35:
+                return (k, i, 'y', rnd.choice(['min1', 'nil0']))
             f = rnd.choice(list(fti.keys()))
             b = base_of(fti[f])
             return (k, i, f, rnd.choice({'int': ['min1', 'nil0', 'ge5'], 'str': ['min1', 'nil0', 'len3']}.get(b, ['min1', 'nil0'])))
@@ -220,7 +225,7 @@ def pick_op(rnd, pool):
         if k == 'Mandatory':
             return (k, rnd.choice(ids))
         if k == 'Subclass':
-            roots = [i for i in cls_ids if i in (3, 4) or getattr(pool[i], '_c15_root', False)]
+            roots = [i for i in cls_ids if i in (3, 4, 5) or pool[i].__name__.startswith('Sub')]
             i = rnd.choice(roots)
             if 'x' in pool[i].get_flat_type_info(pool[i]):
                 continue
@@ -314,7 +319,7 @@ def run(ctx):
                 ctx.violation('projection|%s|model=%s|%s' % (op_key(ops), m['model'], m['why'].split(':')[0]),
                               'after %s model %s differs from SpyneModel: %s' % (ops, m['model'], m['why']), m)
     # ---- code -> spec: random deeper histories validated by TLC
-    depth, per = (5, 40) if ctx.quick else (6, 400)
+    depth, per = (6, 150) if ctx.quick else (7, 1500)
     outs = run_workers(ctx, 'random_worker', [[ctx.seed * 1000 + i, per, depth] for i in range(nproc)])
     traces = [t for out in outs for t in out]
     tf = os.path.join(ctx.work, 'model_traces.ndjson')
